@@ -6,6 +6,8 @@ import (
 
 // C01 Exactly-once completion of every asynchronous operation.
 
+var c01pTwoActs = sim.RegStat("probe:c01-handler-did-two-things")
+
 var c01Kinds = []lKind{lkConnDial, lkConnAcc, lkAdapter, lkFifoR, lkFifoW, lkRegular, lkListener, lkPacket, lkPeer}
 
 func init() {
@@ -53,17 +55,23 @@ func (d *c01) startSomething(o *lObj, preferRead bool, beh int) bool {
 	return tryWrite() || tryRead()
 }
 
-func (d *c01) behave(s *loop, op *lOp) {
+func (d *c01) behave(s *loop, op *lOp) { d.act(op, op.beh) }
+
+func (d *c01) act(op *lOp, beh int) {
 	w := d.w
 	o := op.obj
-	switch op.beh {
+	switch beh {
 	case 0:
+	case 8: // a handler that does two things (cancel and re-arm, close one object and start on another, ...)
+		w.Stat(c01pTwoActs)
+		d.act(op, 1+w.Choose(7))
+		d.act(op, 1+w.Choose(7))
 	case 1: // re-issue the same kind on the same object
 		if d.chain > 0 && !o.closed {
 			d.chain--
 			nb := 1
 			if w.Chance(1, 8) {
-				nb = w.Choose(8)
+				nb = w.Choose(9)
 			}
 			if op.kind.isRead() && d.canRead(o) {
 				d.startRead(o, op.kind == opReadAll, len(op.buf)+boolInt(op.kind == opAccept)*0+boolInt(len(op.buf) == 0 && op.kind != opAccept), nb)
@@ -166,7 +174,7 @@ func runC01(c *Ctx, variant int) {
 	for i := 0; i < steps; i++ {
 		switch w.Choose(12) {
 		case 0, 1, 2, 3:
-			d.startSomething(d.pickObj(), w.Chance(2, 3), w.Choose(8))
+			d.startSomething(d.pickObj(), w.Chance(2, 3), w.Choose(9))
 		case 4, 5, 6:
 			d.peerAct(d.pickObj())
 		case 7, 8:
